@@ -186,6 +186,7 @@ struct SimTask {
     void *fake; int saved_errno;
     int prio; const char *ykind;
     uint64_t start_at;
+    bool nosignal;
 };
 #define MAXT 512
 #define MAXP 512
@@ -620,7 +621,7 @@ static bool rdy_stream_write(SimTask *t) {
 static bool rdy_pipe_write(SimTask *t) { Pipe *p = t->wait_obj; return p->readers == 0 || p->buf.len < p->cap; }
 static ssize_t epipe(void) {
     S.epipes++;
-    if (!cur->p->sigpipe_ign) { S.sigpipe_kills++; kill_self(SIGPIPE); }
+    if (!cur->p->sigpipe_ign && !cur->nosignal) {   /* nosignal: send(..., MSG_NOSIGNAL) */ S.sigpipe_kills++; kill_self(SIGPIPE); }
     errno = EPIPE; return -1;
 }
 static ssize_t reg_write(SimFile *f, const void *buf, size_t n, bool *crash) {
@@ -989,7 +990,12 @@ int __wrap_dup(int a) {
     SimFile *f = fd_get(a); if (!f) { errno = EBADF; return -1; }
     return fd_alloc(cur->p, f);
 }
-ssize_t __wrap_send(int fd, const void *b, size_t n, int fl) { (void)fl; return k_write(fd, b, n); }
+ssize_t __wrap_send(int fd, const void *b, size_t n, int fl) {
+    cur->nosignal = (fl & MSG_NOSIGNAL) != 0;
+    ssize_t r = k_write(fd, b, n);
+    cur->nosignal = false;
+    return r;
+}
 ssize_t __wrap_recv(int fd, void *b, size_t n, int fl) { (void)fl; return k_read(fd, b, n); }
 int __wrap_socket(int d, int t, int pr) { (void)d; (void)t; (void)pr; return k_socket(); }
 int __wrap_bind(int fd, const struct sockaddr *a, socklen_t l) { (void)l; return k_bind(fd, ((const struct sockaddr_un *)a)->sun_path); }
